@@ -8,6 +8,7 @@ package rtpdump
 import (
 	"encoding/binary"
 	"errors"
+	"math"
 	"net"
 	"time"
 )
@@ -18,7 +19,10 @@ const (
 	preambleLen  = 36
 )
 
-var errMalformed = errors.New("malformed rtpdump")
+var (
+	errMalformed       = errors.New("malformed rtpdump")
+	errPayloadTooLarge = errors.New("rtpdump payload does not fit the 16-bit record length")
+)
 
 // Header is the binary header at the top of the RTPDump file. It contains
 // information about the source and start time of the packet stream included
@@ -88,6 +92,11 @@ type Packet struct {
 
 // Marshal encodes the Packet as binary.
 func (p Packet) Marshal() ([]byte, error) {
+	// The record length (payload plus record header) is a 16-bit field.
+	if len(p.Payload) > math.MaxUint16-pktHeaderLen {
+		return nil, errPayloadTooLarge
+	}
+
 	packetLength := len(p.Payload)
 	if p.IsRTCP {
 		packetLength = 0
